@@ -109,6 +109,41 @@ CHECKS = {
   "text": "Theorem C20: for every finite list of int32 arguments the model of Small.Set returns Ok with exactly the answers of a mathematical set; abstraction invariant + induction, no bound on history length or values.",
   "note": "Trusted: Coq 8.16.1 kernel (vm_compute, no native_compute, no axioms: Print Assumptions recorded in evidence), extraction with ExtrOcamlBasic, the OCaml driver, the Go harness and generators, protobuf-go v1.31.0 as oracle. The tie between model and Go code is differential testing on the projection named in the level text, not proof.",
   "ref": "8 C20"
+ },
+ "C07": {
+  "level": "other",
+  "technique": "verified closure checker (Coq) over the import graph regenerated by go list + nm scan of a linked probe",
+  "text": "Theorem closed_sound (every package reachable from a root lies in any import-closed set containing it) proved once; on every run the import graphs of the 4 runtime and 5 generated packages, in both build configurations (plain / -tags verif with the injected hook), are regenerated from `go list -deps` into Coq and the closed set is computed and checked by vm_compute: no reachable package is reflect, fmt or outside std/module (C07_plain, C07_verif). That the linker keeps dead-code elimination on is toolchain behaviour no Gallina model expresses: observed by linking a probe that references every exported function/method/map codec and scanning go tool nm. Hence level other.",
+  "note": "Trusted: Coq 8.16.1 kernel (vm_compute, no native_compute, no axioms: Print Assumptions recorded in evidence), extraction with ExtrOcamlBasic, the OCaml driver, the Go harness and generators, protobuf-go v1.31.0 as oracle. The tie between model and Go code is differential testing on the projection named in the level text, not proof. Additionally trusted: `go list` and `go tool nm`.",
+  "ref": "8 C07"
+ },
+ "C12": {
+  "level": "proof",
+  "technique": "Coq proofs about the generator model + real plugin on grammar-drawn schemas (verdict, emitted programs via T-pico, compiled behaviour vs protobuf-go)",
+  "text": "Proved in Coq for all values/sizes (no bound): for every schema the generator model picks Always writers for presence-carrying scalars and oneof members; optional enum is an explicit error; the shipped schemas (regenerated from the .proto files by T-proto) are accepted (C12_checked_in_total, vm_compute). PARTIAL: 'for every supported schema the emitted codecs satisfy C01-C03/C06/C08' is decided per run: a fixed feature-coverage set (all 180 maps, recursion, optional x15 kinds, oneof x15 kinds+enum+message, out-of-order and extreme field numbers, picoconv casts in 4 shapes, capture) plus grammar-drawn schemas go through the REAL plugin built from the working tree; its verdict and its emitted Encode/Decode programs (parsed back by T-pico) must equal the generator model's, the output must compile, two runs must be byte-identical, and the compiled code is driven like the checked-in types against the model and protobuf-go. Boundary schemas must be rejected by plugin and model alike.",
+  "note": "Trusted: Coq 8.16.1 kernel (vm_compute, no native_compute, no axioms: Print Assumptions recorded in evidence), extraction with ExtrOcamlBasic, the OCaml driver, the Go harness and generators, protobuf-go v1.31.0 as oracle. The tie between model and Go code is differential testing on the projection named in the level text, not proof.",
+  "ref": "8 C12"
+ },
+ "C16": {
+  "level": "other",
+  "technique": "Coq schedule-independence theorem + regenerated global-state obligation + Go race detector run compared with sequential baseline",
+  "text": "C16_sched: any finite interleaving of threads that write only private state and read shared data gives each thread its sequential result (induction over schedules). Its side condition is discharged from gen/Globals.v, regenerated from the runtime packages on every run: no package-level variable is written/address-taken or holds anything but an errors.New value, no goroutine is started, no sync/unsafe import (C16_no_shared_mutable_state). Data races in compiled Go are a runtime fact: 16-64 goroutines Marshal one message / Unmarshal one input / run picoconv under -race, every result compared with the sequential baseline. Hence level other (partial).",
+  "note": "Trusted: Coq 8.16.1 kernel (vm_compute, no native_compute, no axioms: Print Assumptions recorded in evidence), extraction with ExtrOcamlBasic, the OCaml driver, the Go harness and generators, protobuf-go v1.31.0 as oracle. The tie between model and Go code is differential testing on the projection named in the level text, not proof. Additionally trusted: the Go race detector; T-globals is a syntactic go/ast scan.",
+  "ref": "8 C16"
+ },
+ "C17": {
+  "level": "proof",
+  "technique": "Coq refinement lemmas for a concrete buffer model (array,len,cap, arbitrary stale bytes and growth) + MarshalBuffer/NewEncoderBuffer vs Marshal over buffer shapes",
+  "text": "Proved in Coq for all values/sizes (no bound): each primitive the encoder performs on its buffer (buffer[:0], append, shrinking reslice, copy within len, PutUvarint within len) commutes with the view buffer[:len] for every capacity, stale content and growth policy, so no operation exposes stale bytes; on the view, appended bytes never depend on existing content. PARTIAL: the composition to whole Marshal programs over cbuf is not carried out in Coq; MarshalBuffer/NewEncoderBuffer = Marshal is validated over 11 buffer shapes incl. tight capacities, reuse across calls and re-reading earlier results. Argument immutability holds of the model by construction and is validated by before/after snapshots.",
+  "note": "Trusted: Coq 8.16.1 kernel (vm_compute, no native_compute, no axioms: Print Assumptions recorded in evidence), extraction with ExtrOcamlBasic, the OCaml driver, the Go harness and generators, protobuf-go v1.31.0 as oracle. The tie between model and Go code is differential testing on the projection named in the level text, not proof. Go slice/append/copy semantics are modelled (Enc/CBuf.v).",
+  "ref": "8 C17"
+ },
+ "C18": {
+  "level": "translation_validation",
+  "technique": "run the repository's generators from the working tree and diff byte for byte; parse checked-in programs back (T-pico) and compare with the generator model",
+  "text": "All 8 generated artefacts are regenerated (generatecoder in a scratch dir; protoc-gen-pico on descriptors parsed from the working tree's .proto files with the go:generate parameters, no protoc needed) and compared byte for byte with the checked-in files; the diff is the replay. Semantic half: the Encode/Decode programs of every checked-in message, parsed back by T-pico, equal the generator model's output on the T-proto schemas; the generator's types table equals the table the scalar model mirrors (C18_types_table) and the shipped schemas generate (C18_schemas_generate).",
+  "note": "Trusted: Coq 8.16.1 kernel (vm_compute, no native_compute, no axioms: Print Assumptions recorded in evidence), extraction with ExtrOcamlBasic, the OCaml driver, the Go harness and generators, protobuf-go v1.31.0 as oracle. The tie between model and Go code is differential testing on the projection named in the level text, not proof. protoparse (proto3 subset parser of this harness) stands in for protoc; validated by reproducing all five checked-in *.pico.go byte for byte.",
+  "ref": "8 C18"
  }
 }
 NA_REASON = "machinery for this property is not built yet in this revision (work in progress; will be claimed when its check exists)"
